@@ -5,18 +5,30 @@ SPEC = {
     "tests": [
         {"name": "TestHTTPSamples", "quick": 320, "thorough": 24000, "shards_quick": 8, "shards_thorough": 16, "timeout": 3000},
         {"name": "TestGRPCCodes", "quick": 48, "thorough": 3200, "shards_quick": 4, "shards_thorough": 16, "timeout": 3000},
+        {"name": "TestGRPCJSONTags", "quick": 64, "thorough": 3200, "shards_quick": 4, "shards_thorough": 16, "timeout": 3000},
+        {"name": "TestGRPCUntaggedWitness", "quick": 1, "thorough": 1, "shards": 1, "timeout": 120},
         {"name": "TestGRPCScenarioTags", "quick": 160, "thorough": 8000, "shards_quick": 4, "shards_thorough": 16, "timeout": 3000},
         {"name": "TestScenarioSamples", "quick": 400, "thorough": 24000, "shards_quick": 8, "shards_thorough": 16, "timeout": 3000},
         # one process at a time is enough: each case already runs 2-16 goroutines flat out
         {"name": "TestIDsUnique", "quick": 60, "thorough": 3000, "shards_quick": 2, "shards_thorough": 4, "timeout": 3000},
     ],
-    "rule": ("TestGRPCScenarioTags: generated grpc/scenario descriptions with 2-4 weighted scenarios whose request lists (1-3 steps "
+    "rule": ("TestGRPCJSONTags: generated grpc/json files of 2-8 distinct lines, each tagged (1-3 tags that repeat) or untagged (no `tag` "
+             "key, or `tag: \"\"`) with equal odds, answered with OK / InvalidArgument / NotFound / Unavailable / Unauthenticated; the lines "
+             "are shot 40 / 200 / 300 / 450 times - three cases in four beyond the provider's 128-entry read-ahead, where entries are "
+             "decoded into ammo objects that instances have released - by a long file or by passes over a short one, 1-4 instances, real "
+             "grpc gun and provider, real phout; the i-th sample (one instance; multiset otherwise) must be {tag of line i mod n or "
+             "__EMPTY__, documented code}; non-trivial = tagged and untagged lines mixed and shot beyond the read-ahead. "
+             "TestGRPCUntaggedWitness: fixed witness of finding grpc-gun-untagged-sample-tag-empty. TestGRPCScenarioTags: generated grpc/scenario descriptions with 2-4 weighted scenarios whose request lists (1-3 steps "
              "with multiplicities) draw on the same 1-4 `calls:` (tags may coincide, some calls answered with a non-OK status) plus one "
-             "marker call of their own at a random position; ammo limit 1-3 rounds of the weights, 1-3 instances, real grpc/scenario gun "
+             "marker call of their own at a random position; in half of the descriptions the calls carry an assert/response postprocessor "
+             "(status_code equal to / different from the documented code of the status the target answers, payload word the answer "
+             "holds / does not hold, both) - a step whose assertion fails was executed and answered, it is the last step of its "
+             "invocation (docs: further scenario execution is dropped) and the marker is never placed behind it; ammo limit 1-3 rounds of the weights, 1-3 instances, real grpc/scenario gun "
              "and provider, real phout. The recording server tells what ran: each call carries its name in metadata, the marker calls "
              "count the invocations of each scenario, and with one instance the call sequence decomposes uniquely into scenario "
              "invocations; samples must be, in order (one instance) or as a multiset (several), exactly {<scenario>.<call tag>, documented "
-             "code} of every executed step; non-trivial = two or more invoked scenarios list the same call. TestScenarioSamples: generated http scenarios (1-4 steps with multiplicities, postprocessors none / assert status / assert "
+             "code of the status received} of every executed step, rejected by its postprocessor or not; non-trivial = two or more invoked "
+             "scenarios ran the same call, or a step was rejected by its postprocessor. TestScenarioSamples: generated http scenarios (1-4 steps with multiplicities, postprocessors none / assert status / assert "
              "body / var/jsonpath before or after an assert) shot 1-5 times by one instance; the scripted target makes one request of "
              "some invocations carry a status or a body that the step's assertion rejects; the phout sample stream must be exactly one "
              "sample per executed step, tagged <scenario>.<step name>, completed steps with the status received, the failed step "
@@ -38,14 +50,25 @@ SPEC = {
                "TestHTTPSamples/uri_without_path_query": 0.1, "TestHTTPSamples/uri_without_path_abs_query": 0.1,
                "TestGRPCScenarioTags/one_instance_reruns_a_call_in_another_scenario": 0.24,
                "TestGRPCScenarioTags/call_shared_by_invoked_scenarios": 0.45, "TestGRPCScenarioTags/three_or_more_scenarios_invoked": 0.3,
-               "TestGRPCScenarioTags/instances_ge_2_with_shared_call": 0.15, "TestGRPCScenarioTags/step_with_non_ok_status": 0.2, "TestGRPCCodes/shared_client": 0.2, "TestGRPCCodes/out_of_range_codes": 0.2},
+               "TestGRPCScenarioTags/instances_ge_2_with_shared_call": 0.15, "TestGRPCScenarioTags/step_with_non_ok_status": 0.2,
+               "TestGRPCScenarioTags/step_rejected_by_postprocessor": 0.15, "TestGRPCScenarioTags/invocation_cut_short_by_postprocessor": 0.12,
+               "TestGRPCScenarioTags/rejected_by_payload_assertion": 0.08, "TestGRPCScenarioTags/rejected_by_status_code_assertion": 0.065,
+               "TestGRPCScenarioTags/rejected_step_answered_ok": 0.07, "TestGRPCScenarioTags/rejected_step_answered_non_ok": 0.07,
+               "TestGRPCScenarioTags/step_with_assertion_that_holds": 0.12, "TestGRPCScenarioTags/instances_ge_2_with_rejected_step": 0.035, "TestGRPCJSONTags/mixed_tags_beyond_read_ahead": 0.4, "TestGRPCJSONTags/mixed_tags_beyond_read_ahead_tag_key_absent": 0.38,
+               "TestGRPCJSONTags/mixed_tags_beyond_read_ahead_one_instance": 0.2, "TestGRPCJSONTags/mixed_tags_beyond_read_ahead_instances_ge_2": 0.15,
+               "TestGRPCJSONTags/mixed_tags_beyond_read_ahead_long_file": 0.17, "TestGRPCJSONTags/mixed_tags_beyond_read_ahead_by_passes": 0.19,
+               "TestGRPCJSONTags/within_read_ahead": 0.12,
+               "TestGRPCCodes/shared_client": 0.2, "TestGRPCCodes/out_of_range_codes": 0.2},
     "exhaustive_note": "gRPC status codes 0..16 are all exercised in every TestGRPCCodes case (the sub-space of defined codes is enumerated completely)",
     "manifest": {
         "technique": "model-based property testing (rapid) through the real guns and the real phout aggregator against scripted recording targets; documentation-transcribed table oracle for gRPC codes",
         "text": ("Samples are read where users read them (phout lines). HTTP: exactly one sample per fired request; proto code = status "
                  "received else 0; net code 0 iff a response was completely received; tag = ammo tag / auto-tag of the first n path "
                  "elements (appended with '|' when the ammo is tagged and no-tag-only is off) / __EMPTY__ (also when auto-tag is on and the URI has no path to take elements from); ids unique across instances. "
-                 "gRPC: proto code equals the documented mapping for all 17 defined codes and 500 for anything else."),
+                 "gRPC: proto code equals the documented mapping for all 17 defined codes and 500 for anything else; the tag is the one written "
+                 "on the entry's own line, __EMPTY__ for a line without one, also once the provider recycles its ammo objects; a "
+                 "scenario step that was answered and then rejected by its assert/response postprocessor keeps tag <scenario>.<call tag> "
+                 "and the code of the status received."),
         "note": ("1xx statuses are not generated (Go's client consumes them); which errno a failure maps to is not asserted, only "
                  "non-zero. An ammo tag combined (no-tag-only off) with the auto-tag of a path-less URI is not generated: what it should "
                  "read like is not documented. gRPC scenario steps: tags and codes here (TestGRPCScenarioTags), templating in C20 TestGRPCScenario."),
